@@ -16,7 +16,8 @@ FIRST_MISSED = {"C08-dot-absent-left", "C12-unsparsify-full-record-passthrough",
 NOT_EVALUATED_FIRST = {"C02-ps-alias-output-side", "C02-unflatten-fastpath-empty-collections", "C04-csvlite-schema-reset-batch-edge",
                        "C04-rename-stale-index", "C13-right-default-from-left", "C14-emit-multi-names", "C14-formulti-break",
                        "C15-capitalize-first-byte", "C15-ll-length-modifier-order", "C16-strftime-neg-fraction", "C16-verb-int-nanos-path",
-                       "C20-dump-redirect-mode", "C20-split-group-name-cache"}
+                       "C20-dump-redirect-mode", "C20-split-group-name-cache",
+                       "C10-fraction-cumu-zero", "C10-histogram-hi-edge", "C11-uniq-a-n-values-key", "C12-reshape-l2w-lastbucket", "C12-sparsify-f-filler"}
 rows = []
 for d in sorted(os.listdir(S)):
     p = os.path.join(S, d)
